@@ -42,6 +42,10 @@ def create_binary_search_tree(probabilities):
     k = len(probabilities) - 1
     bst = np.concatenate((np.zeros(shape=k), probabilities))
 
+    if k == 0:
+        # only one state: the tree is reduced to its root
+        return bst[:1]
+
     ptr = 1
     stack = deque()
     cum_probability = 0
